@@ -356,7 +356,7 @@ class TTFont(object):
                         dependency (fastest).
         """
         if not hasattr(file, "write"):
-            if self.lazy and self.reader.file.name == file:
+            if self.lazy and getattr(self.reader.file, "name", None) == file:
                 raise TTLibError("Can't overwrite TTFont when 'lazy' attribute is True")
             createStream = True
         else:
